@@ -66,6 +66,7 @@ type Interp struct {
 	globals  map[*ssa.Global]Ptr
 	consts   map[*ssa.Const]Value
 	journal  []journalEntry
+	jsonPath []interface{} // containers on the current descent of the json encoder model
 	Epoch    int // current allocation epoch
 	Frozen   int // objects with Epoch < Frozen must not be written (0 = off)
 	FrozenOK map[string]bool
